@@ -39,9 +39,8 @@ Why(c) ==
                LET lo == ps[k].s  hi == ps[k].e
                    v0 == Total(c, lo - 1)  v1 == Total(c, hi)
                    r == c.obs.returns[k].r
-                   first == k = 1 /\ WinS(c, dirs) = ps[1].s          \* (with --last the first line covers the earlier history too)
-               IN \/ (~PriceChanged(c, lo, hi) /\ ~HasPerfTrx(c, lo, hi) /\ (k > 1 \/ first) /\ r # 0)
-                  \/ (~HasFlow(c, lo, hi) /\ (k > 1 \/ first) /\ v0 > 0
+               IN \/ (~PriceChanged(c, lo, hi) /\ ~HasPerfTrx(c, lo, hi) /\ r # 0)       \* (also for the first line under --last)
+                  \/ (~HasFlow(c, lo, hi) /\ v0 > 0
                         /\ Abs2(r * v0 - 1000 * (v1 - v0)) > v0)        \* r/1000 = v1/v0 - 1 within the printed 0.1%
           THEN "return-differs"
      ELSE "ok"
